@@ -118,6 +118,11 @@ pub struct GenCase {
     /// every output-based property is also judged on outputs of reused generators.
     #[serde(default)]
     pub prior_calls: u8,
+    /// which of the equivalent public API entry points configure the generator: bit 0 - opcode knobs
+    /// through with_min_opcodes / with_max_opcodes instead of with_opcode_range; bit 1 - mutators added one
+    /// by one with with_mutator instead of with_mutators; bit 2 - knobs written to the public fields
+    #[serde(default)]
+    pub build_style: u8,
 }
 
 impl GenCase {
@@ -133,6 +138,7 @@ impl GenCase {
             allow_ext: false,
             allow_buffer: false,
             prior_calls: 0,
+            build_style: 0,
         }
     }
 
@@ -165,14 +171,28 @@ impl GenCase {
             self.allow_ext as u8,
             self.allow_buffer as u8
         ) + &if self.prior_calls > 0 { format!(" after {} earlier call(s)", self.prior_calls) } else { String::new() }
+            + &if self.build_style > 0 { format!(" api-style={}", self.build_style) } else { String::new() }
     }
 
     /// Build the real generator exactly the way the repository's own callers do
     /// (mutators are created with the generator's own unsafe flag, as in main.rs).
     pub fn build(&self, spy: Option<&SpyLog>) -> Generator {
-        let mut g = Generator::new(self.version()).with_opcode_range(self.min_opcodes, self.max_opcodes);
+        let mut g = Generator::new(self.version());
+        if self.build_style & 4 != 0 {
+            g.min_opcodes = self.min_opcodes;
+            g.max_opcodes = self.max_opcodes;
+        } else if self.build_style & 1 != 0 {
+            g = g.with_max_opcodes(self.max_opcodes).with_min_opcodes(self.min_opcodes);
+        } else {
+            g = g.with_opcode_range(self.min_opcodes, self.max_opcodes);
+        }
         if let Entropy::Seed(s) = self.entropy {
-            g = g.with_seed(s);
+            g = if self.build_style & 4 != 0 {
+                g.seed = Some(s);
+                g
+            } else {
+                g.with_seed(s)
+            };
         }
         let muts: Vec<Box<dyn Mutator>> = self
             .mutators
@@ -186,7 +206,13 @@ impl GenCase {
                 }
             })
             .collect();
-        g = g.with_mutators(muts);
+        if self.build_style & 2 != 0 {
+            for m in muts {
+                g = g.with_mutator(m);
+            }
+        } else {
+            g = g.with_mutators(muts);
+        }
         if self.rate.via_field {
             g.mutation_rate = self.rate.value();
         } else {
@@ -273,7 +299,9 @@ pub fn panic_message(p: Box<dyn std::any::Any + Send>) -> String {
 /// ends in a panic (a failed generation, judged by C09) instead of hanging the check
 pub fn budgets(min_opcodes: usize, max_opcodes: usize) -> (u64, u64) {
     let m = min_opcodes.max(max_opcodes) as u64;
-    (3 * m + 8, 100_000 * (m + 8) + 1_000_000)
+    // far above anything legitimate (the exact 3*max+4 bound on the opcode count is C11's business,
+    // judged from the counters; these budgets only exist to stop runaway loops)
+    (100 * m + 10_000, 100_000 * (m + 8) + 1_000_000)
 }
 
 /// `call_gen` with the budgets armed (for callers that do not arm the trace sink themselves)
@@ -580,8 +608,9 @@ pub fn gencase(p: &Profile) -> BoxedStrategy<GenCase> {
         prop_oneof![2 => Just(false), 1 => Just(true)],
         prop_oneof![2 => Just(false), 1 => Just(true)],
         prop_oneof![14 => Just(0u8), 4 => Just(1u8), 2 => Just(2u8)],
+        prop_oneof![3 => Just(0u8), 2 => 0u8..8],
     )
-        .prop_map(move |(protocol, entropy, (min, max), mutators, rate, uns, ext, buf, prior)| GenCase {
+        .prop_map(move |(protocol, entropy, (min, max), mutators, rate, uns, ext, buf, prior, style)| GenCase {
             protocol,
             entropy,
             min_opcodes: min,
@@ -597,6 +626,7 @@ pub fn gencase(p: &Profile) -> BoxedStrategy<GenCase> {
             allow_buffer: buf,
             // long programs are not repeated (cost), everything else sometimes runs on a reused generator
             prior_calls: if min.max(max) > 2000 { 0 } else { prior },
+            build_style: style,
         })
         .boxed()
 }
@@ -660,5 +690,6 @@ pub fn gencase_from_bytes(data: &[u8], unsafe_mode: UnsafeMode) -> GenCase {
         allow_ext: flags & 4 != 0,
         allow_buffer: flags & 8 != 0,
         prior_calls: (flags >> 4) % 3,
+        build_style: flags >> 6,
     }
 }
